@@ -774,7 +774,7 @@ var boundsText = map[string][2]string{
 	"C01": {"box body lengths selected per type from calib/box_lengths.json (first success lengths, progressions of count-driven boxes, 0,4,..,24), <= 128 bytes, 32- and 64-bit headers, both decoders; 9 skeleton files with every third leaf symbolic", "every body length 0..96 (64-bit header 0..40), every leaf of every skeleton file"},
 	"C02": {"as C01 (32-bit header, slice reader); 9 skeleton files", "every body length 0..96"},
 	"C03": {"as C01 (both decoders and encoders compared); 9 skeleton files", "every body length 0..96"},
-	"C04": {"exact header: calibration-selected lengths <= 64 (heavy types <= 16 and first two success lengths); symbolic size field / largesize at body lengths 8 and 16; 9 skeleton files x every fifth (leaf, decode mode) pair with the leaf symbolic; budgets 100000+4000*N steps, 1 MiB+64*N bytes", "exact header: every length 0..48; symbolic size at 0,4,8,12,16,24,32; Info at all levels; every leaf x decode mode of every skeleton file"},
+	"C04": {"exact header: calibration-selected lengths <= 64 (heavy types <= 16 and first two success lengths); symbolic size field / largesize at body lengths 8 and 16; 10 skeleton files x every fifth (leaf, decode mode) pair with the leaf symbolic; every box of every skeleton dropped / duplicated / swapped / truncated / moved last x 5 decode modes; lazy mdat with symbolic and wrapping sizes; budgets 100000+4000*N steps, 1 MiB+64*N bytes", "exact header: every length 0..48; symbolic size at 0,4,8,12,16,24,32; Info at all levels; every leaf x decode mode of every skeleton file"},
 	"C05": {"14 addition patterns (<= 3 additions, <= 2 tracks), trun optimisation on/off, two encoder/decoder pairings, extra boxes on every third pattern; payload <= 3 bytes per sample", "23 patterns (<= 4 additions, <= 3 tracks), all four encoder/decoder pairings"},
 	"C06": {"HEVC NAL size lists {2,108,130;17+3} (+ one decoded separately), AVC NAL size lists {1,15,16,107,108,109,123;124,200+5,130;16+3} x IV 8/16, AAC sizes {0,1,15,16,17,40,32;33} x cenc/cbcs, one instance with uuid+unknown boxes, 6 instances with init and media decoded separately (<= 2 samples); key/IV/metadata symbolic", "adds NAL sizes 112,113,128,255+20;300,16;16;16 and audio 2,31,48,5;5;5"},
 	"C07": {"the C06 instances (assertions on the encrypted form) and GetAVCProtectRanges for every NAL size 1..40 and around 112 / 65535", "as quick with the thorough C06 sizes"},
